@@ -6,10 +6,10 @@ exit non-zero, `obs` = error class returned (if any) and the Runner calls in ord
 
 The judge first decides what kind of configuration it is looking at (`classify`): erroneous (a name defined twice, an
 undefined name among the requested tasks and everything they reach, a dependency cycle among the selected tasks) or
-fine, in which case it also knows the set of selected tasks.  The decision procedure reuses `closure` and `sort` with a
-fixed oracle; that this *is* the mathematical notion (`Erroneous`, `Reach` — inductive definitions in `Spok/Graph.lean`)
+fine, in which case it also knows the set of selected tasks.  The decision procedure runs the model's `plan` with a fixed
+oracle; that this *is* the mathematical notion (`Erroneous`, `Reach` — inductive definitions in `Spok/Graph.lean`)
 is theorem `classify_erroneous_iff` / `classify_fine` in `Lemmas/GraphJudge.lean`, and `Props/C03.lean` proves
-`c03 … = true ↔ Spec …` where `Spec` is the property written with quantifiers.
+`c03 … = true ↔ Spec …` where `Spec` (below) is the property written with quantifiers.
 
 Then:
 * erroneous configuration  ⇒ an error must be reported and nothing may have run;
@@ -30,15 +30,15 @@ inductive Config (α : Type)
 /-- the oracle that gives no hints: collections are iterated in the order the model stores them -/
 def plainOracle : Oracle α := ⟨[], fun _ => []⟩
 
+/-- decision procedure for the kind of configuration and, when it is fine, the selected tasks.  It runs the model's
+    `plan` under one fixed oracle; `classify_erroneous_iff` and `classify_fine` (Lemmas/GraphJudge.lean) prove that
+    the answer is the mathematical one (`Erroneous`, `Reach`), whatever the oracle. -/
 def classify (ts : Table α) (req : List α) : Config α :=
   if ¬ (names ts).Nodup then .erroneous
-  else match closure ts req with
-    | .error _ => .erroneous
-    | .ok g =>
-      if g.verts = [] then .fine []
-      else match sort plainOracle g with
-        | .ok order => if order.length = g.verts.length then .fine g.verts else .erroneous
-        | _ => .erroneous
+  else if req = [] then .fine []
+  else match plan plainOracle ts req with
+    | .ok order => .fine order
+    | _ => .erroneous
 
 /-- every task that ran was preceded by all the tasks it depends on -/
 def depsBeforeB (ts : Table α) (calls : List α) : Bool :=
@@ -50,5 +50,15 @@ def c03 (ts : Table α) (req : List α) (fails : α → Bool) (obs : Obs α) : B
   | .fine sel =>
     decide obs.calls.Nodup && obs.calls.all (fun n => n ∈ sel) && depsBeforeB ts obs.calls &&
     (sel.any fails || ((obs.err.isNone || req.isEmpty) && sel.all (fun n => n ∈ obs.calls)))
+
+/-- C03 with quantifiers: what the property demands of an observed run (`c03_iff_spec`: the judge decides exactly this) -/
+def Spec (ts : Table α) (req : List α) (fails : α → Bool) (obs : Obs α) : Prop :=
+  (Erroneous ts req → obs.err ≠ none ∧ obs.calls = []) ∧
+  (¬ Erroneous ts req →
+    obs.calls.Nodup ∧
+    (∀ n ∈ obs.calls, Reach ts req n) ∧
+    (∀ b ∈ obs.calls, ∀ a ∈ deps ts b, Before obs.calls a b) ∧
+    ((∀ n, Reach ts req n → fails n = false) →
+      (obs.err = none ∨ req = []) ∧ ∀ n, Reach ts req n → n ∈ obs.calls))
 
 end Spok.Judge.Graph
